@@ -281,4 +281,9 @@ theorem buf_new {ρ' : Type} (f n : Nat) : (BufIter.new f n : PF ρ' _) = .ret (
   rw [h]
   simp [Prog.bind]
 
+/-- the chunk value iterator defines `next` and `len` only and has no destructor: `nth`, `last`, `fold`, `count`, `size_hint`, …
+are std's defaults over `next` (so `chunk_next_tree` covers them), and an unconsumed slot simply stays in the buffer that owns it -/
+theorem chunk_iterator_defines_next_and_len_only :
+    ChunkIt.iterator_overrides = ["next"] ∧ ChunkIt.exact_size_overrides = ["len"] ∧ ChunkIt.has_drop = false := by decide
+
 end Orx.GenThms.Proto
